@@ -4,6 +4,7 @@ use super::queue_state::*;
 use super::job_queue::*;
 
 use std::sync::*;
+#[cfg(desync_verif)] use vsched::sync::{Mutex, Condvar};
 use futures::task::{ArcWake};
 
 ///
